@@ -67,3 +67,21 @@ Proof. exact handshake_wrong_key. Qed.
 (* (4) the configured key *)
 Theorem C04_psk_gate : forall a2b, (exists k, decode_psk a2b = Some k) <-> (exists k, a2b = Some k /\ length k = 32%nat).
 Proof. exact psk_gate. Qed.
+
+(* (5) the device that speaks the other framing to a PLAINTEXT client (Model/PlainFrame.v, Proofs/PlainSticky.v): once a read has
+   reported a complete first byte that is not the plaintext preamble (0x01 = a Noise device: requires-encryption; anything else:
+   protocol error), every later read - of any content, cut anywhere - ends in the error again and delivers nothing *)
+From Verif Require Kernel.Varint Model.PlainFrame Proofs.PlainSticky.
+Theorem C04_plaintext_error_is_final : forall buf c later,
+  PlainFrame.r_status (PlainFrame.data_received buf c) = PlainFrame.Errored ->
+  (exists pre rest, Varint.read_varuint (PlainFrame.r_buffer (PlainFrame.data_received buf c)) = Some (pre, rest)) ->
+  PlainSticky.silent_from (PlainFrame.r_buffer (PlainFrame.data_received buf c)) later.
+Proof. exact PlainSticky.plain_error_is_final. Qed.
+
+(* non-vacuity: the Noise hello of a device named "dev", then two well-formed plaintext frames in later reads *)
+Example C04_plaintext_error_example :
+  let r := PlainFrame.data_received [] [1; 0; 5; 1; 100; 101; 118; 0] in
+  PlainFrame.r_status r = PlainFrame.Errored /\ PlainFrame.r_events r = [PlainFrame.ErrRequiresEncryption] /\
+  (exists pre rest, Varint.read_varuint (PlainFrame.r_buffer r) = Some (pre, rest)) /\
+  PlainFrame.r_events (PlainFrame.data_received (PlainFrame.r_buffer r) [0; 0; 8; 0; 2; 25; 8; 1]) = [PlainFrame.ErrRequiresEncryption].
+Proof. vm_compute. repeat split. eexists; eexists; reflexivity. Qed.
